@@ -201,6 +201,9 @@ def render(p, inline=(), banked=()):
     return s
 
 
+ROMSEL = 'unsigned char * const ROM_SELECT = 0x3f;\n'      # declared by the platform headers
+
+
 def check_end_to_end(rep, tier, st):
     progs = graph_programs(tier) + families2.g_call(tier)
     import check_c14
@@ -217,8 +220,14 @@ def check_end_to_end(rep, tier, st):
         for b in names:
             rid = '%s@bank1:%s' % (p.pid, b)
             reqs.append((rid, ['-O1'], render(p, banked=(b,)))); meta[rid] = (p, (), (b,))
+            # the other bankswitching schemes have their own call sequences (direct JSR, LDA/STA ROM_SELECT/JSR, CallX stub)
+            for sn, d in (('3E', '__3E__'), ('3EP', '__3E_PLUS__'), ('SG', '__SUPERGAME__'), ('SGX', '__SUPERGAME_EXFIX__')):
+                rid = '%s@bank1:%s/%s' % (p.pid, b, sn)
+                reqs.append((rid, ['-O1', '-D' + d], ROMSEL + render(p, banked=(b,)))); meta[rid] = (p, (), (b,))
+            rid = '%s@bank7:%s/SGX' % (p.pid, b)
+            reqs.append((rid, ['-O1', '-D__SUPERGAME_EXFIX__'], ROMSEL + render(p, banked=(b,)).replace('bank1 ', 'bank7 '))); meta[rid] = (p, (), (b,))
     R = common.compile_many(reqs)
-    srcs = {i: s for i, a, s in reqs}
+    srcs = {i: s for i, a, s in reqs}; argsof = {i: a for i, a, s in reqs}
     for rid, (p, sub, banked) in meta.items():
         c = R[rid]
         if c.status != 'ok': st['rejected'] += 1; continue
@@ -255,7 +264,7 @@ def check_end_to_end(rep, tier, st):
         want = closure(roots)
         if set(c.inuse) != want: problems.append('functions in use %s, reachable from main and interrupt handlers %s' % (sorted(c.inuse), sorted(want)))
         if problems:
-            rep.violation('calls:%s' % rid, '%s: %s' % (rid, '; '.join(problems[:3])), dict(kind='calls', source=srcs[rid], args=['-O1'], calltree=tree, inuse=c.inuse, problems=problems))
+            rep.violation('calls:%s' % rid, '%s: %s' % (rid, '; '.join(problems[:3])), dict(kind='calls', source=srcs[rid], args=argsof[rid], calltree=tree, inuse=c.inuse, problems=problems))
         else: st['programs_ok'] += 1
 
 
